@@ -69,6 +69,7 @@ type handle struct {
 	batch *pebble.Batch
 	iter  *pebble.Iterator
 	src   int
+	cls   string
 }
 
 // Runner executes events against one real DB and records the trace.
@@ -599,7 +600,7 @@ func (r *Runner) Exec(e Ev) {
 			r.fail(errors.Wrap(err, "newiter"))
 			return
 		}
-		r.H[e.I("h")] = &handle{typ: "iter", iter: it, src: e.I("src")}
+		r.H[e.I("h")] = &handle{typ: "iter", iter: it, src: e.I("src"), cls: e.S("cls")}
 		r.T.Emit(e)
 	case "iter":
 		h := r.H[e.I("h")]
@@ -632,6 +633,7 @@ func (r *Runner) Exec(e Ev) {
 			return
 		}
 		e["res"] = res
+		e["cls"] = h.cls
 		e["err"] = it.Error() != nil
 		if it.Error() != nil {
 			e["errtext"] = it.Error().Error()
@@ -662,7 +664,7 @@ func (r *Runner) Exec(e Ev) {
 			r.fail(errors.Wrap(err, "clone"))
 			return
 		}
-		r.H[e.I("h")] = &handle{typ: "iter", iter: it, src: h.src}
+		r.H[e.I("h")] = &handle{typ: "iter", iter: it, src: h.src, cls: e.S("cls")}
 		r.T.Emit(e)
 	case "maint":
 		r.maint(e.S("kind"))
